@@ -60,8 +60,14 @@ func VH_C09_batch() {
 	m := &bMon{}
 	bConfig(m)
 	m.stop = vNondet[bool]("stop")
-	m.errForm = vChoice("errForm", 3) // one form for all failing items of the run
+	m.errForm = vChoice("errForm", 4) // one form for all failing items of the run; 3 = plain errors + echoing fallback
 	b := bNode(m, c09Exec(m))
+	if m.errForm == 3 {
+		// a custom fallback that gives up like the default one but hands its input back next to the
+		// error (the input of a batch item's fallback is the item, a Result): still a failed item
+		vCover("fallback-echoes-the-item-with-the-error")
+		WithExecFallbackFunc(func(p any, err error) (any, error) { return p, err }).apply(b.CustomNode)
+	}
 	_, err := Run(m.ctx, b, NewSharedStore())
 	if err != nil || m.posts != 1 || len(m.postRes) != m.n {
 		return // post's calling convention is C06's business
